@@ -348,11 +348,17 @@ def l2_trace(res):
     """Project a recorded trace for TraceRetry: cut at Idle, give every PUBREL the tag of its message."""
     evs = []
     tagof = {}
+    connack = {}
     for e in res["evs"]:
         if e["e"] == "Idle":
             break
+        if e["e"] == "Close" and e["by"] == "peer" and connack.get(e["g"]) != "accepted":
+            # the broker closing a connection it refused is part of the failed Connect, not a fault of its own
+            e = dict(e, by="brokerRefused")
         if e["e"] == "Write":
             e = dict(e)
+            if e["p"] == "CONNECT":
+                connack[e["g"]] = e.get("connack")
             if e["p"] == "PUBLISH":
                 tagof[e["id"]] = e["tag"]
             e["rtag"] = tagof.get(e["id"], 0) if e["p"] == "PUBREL" else 0
